@@ -19,7 +19,8 @@ EXPLANATION = (
     "(3) dewies_to_lbc / lbc_to_dewies delegate unchanged. Decides exactness and the rejection grammar for all "
     "integers and all strings; trusts int()/str()/divmod."
 )
-TECHNIQUE = "static analysis: numeric-domain lint on the def-use chain, regex-AST grammar check, guard dominance of returns"
+EXACTNESS = "Second pass (DESIGN.md §10, exactness / completeness halves) — trailing-zero rule, no fall-through, refusals exact, a failed conversion is never swallowed."
+TECHNIQUE = "static analysis: numeric-domain lint on the def-use chain, regex-AST grammar check, guard dominance of returns; exact fact-set comparison of the tests dominating each effect and refusal (effect / refusal tables), fall-through path queries"
 NOT_DECIDED = "nothing beyond the behaviour of int, str, divmod and the re module"
 ASSUMPTIONS = ["amounts passed to satoshis_to_coins are Python ints (all call sites pass integer dewies)"]
 
